@@ -1,6 +1,7 @@
 import CoapVerif.Go.Basic
 import CoapVerif.Model.TokenTable
 import CoapVerif.Lemmas.TokenTable
+import CoapVerif.Lemmas.TokenReach
 import CoapVerif.Spec.TokenMatch
 /-!
 # C03 — every response reaches exactly the request that carries its token
@@ -12,6 +13,14 @@ carrying its own token and the content the peer produced for that request.  A re
 to a different caller or to two callers, and a second request issued with a token that is still
 outstanding is rejected rather than displacing the first.
 
+**Property-level theorems are the trace-level ones**: `response_reaches_request` (the title: an outstanding, unanswered
+request whose response is next in the queue gets it — no assumption about the table, the registration is the proved
+invariant `InvR`), `outstanding_iff_registered`, `held_was_sent_by_the_peer` (what a caller holds was sent by the peer in
+this history, field by field), `resp_token_matches` / `no_cross_delivery` / `at_most_one_receiver`,
+`late_copy_goes_to_default`, `duplicate_token_rejected_first_kept`.  They need the premise of the property, "requests
+with distinct tokens" (`DistinctRequests`: the request tokens of the history are pairwise distinct and separated by the
+key function); the single-step facts further down hold in every state and are the building blocks.
+
 The theorems are about `Model.TokenTable` (`run h cfg evs`): **every** list of events `evs` (any number of
 callers, any arrival order, duplicates, piggybacked/separate/bare ACK/RST, cancellation, close, every
 interleaving of receive path and callers), **every** hash function `h` and all four configurations
@@ -22,7 +31,7 @@ The shape of the code the model follows (which table operation each path uses, u
 which removal) is regenerated from the source and compared by `shape_agrees`.
 -/
 namespace CoapVerif.Props.C03
-open CoapVerif CoapVerif.Model.TokenTable CoapVerif.Lemmas.TokenTable
+open CoapVerif CoapVerif.Model.TokenTable CoapVerif.Lemmas.TokenTable CoapVerif.Lemmas.TokenReach
 
 /-- the hash separates the tokens in play -/
 def HashInj (h : Token → Nat) (toks : List Token) : Prop := ∀ a ∈ toks, ∀ b ∈ toks, h a = h b → a = b
@@ -62,6 +71,89 @@ theorem no_cross_delivery (h : Token → Nat) (cfg : Cfg) (evs : List Event) (in
   have e : m.tok = cl2.tok := inj _ (hp.htok c m hh) _ (hp.ctok c cl2 hc) g2
   exact hne (e.symm.trans hm)
 
+/-- an unmatched message goes to the default path and touches no caller and no table (single step) -/
+theorem deliver_miss_default_eq (h : Token → Nat) (cfg : Cfg) (s : State) (m : Msg) (hmiss : s.table (h m.tok) = none) :
+    deliver h cfg s m = { s with dflt := s.dflt ++ [m] } := by
+  unfold deliver; rw [hmiss]
+
+/-! ### The headline, at trace level
+
+`DistinctRequests`: the premise of the property ("requests with distinct tokens", and — since the table is keyed by a
+hash — a key function that separates them).  `FreshKeys` is its operational form (every request is issued with a token
+whose key differs from the key of every request issued before on the connection); `distinctRequests_fresh` derives it
+from the syntactic condition on the history. -/
+
+/-- the tokens of the requests of the history are pairwise distinct and the key function separates them -/
+def DistinctRequests (h : Token → Nat) (evs : List Event) : Prop :=
+  (doTokens evs).Nodup ∧ ∀ a ∈ doTokens evs, ∀ b ∈ doTokens evs, h a = h b → a = b
+
+theorem distinctRequests_fresh (h : Token → Nat) (cfg : Cfg) (evs : List Event) (hd : DistinctRequests h evs) :
+    FreshKeys h cfg init evs :=
+  freshKeys_of_nodup h cfg evs init [] (by intro c cl h1; simp [init] at h1)
+    (by simpa using nodup_map_of_inj h (doTokens evs) hd.1 hd.2)
+
+/-- **response_reaches_request (the title of the property).**  For every schedule of requests with distinct tokens: if,
+    after the history `evs`, caller `c` is outstanding and unanswered (its call has not returned, nothing is in its
+    channel) and the oldest queued message carries `c`'s token (and is not a retransmission that the response cache
+    answers), then processing that message hands it to `c`.  No hypothesis about the table: that `c` is registered under
+    the key of its token is the invariant `InvR`, proved for every such history. -/
+theorem response_reaches_request (h : Token → Nat) (cfg : Cfg) (evs : List Event) (hd : DistinctRequests h evs)
+    (c : Nat) (cl : Caller) (hc : (run h cfg evs).callers c = some cl) (hp : cl.pc ≠ .returned) (hs : cl.slot = none)
+    (m : Msg) (q : List Msg) (hq : (run h cfg evs).queue = m :: q) (hm : m.tok = cl.tok)
+    (hnd : dedupHit cfg { run h cfg evs with queue := q } m = false) :
+    Holds (run h cfg (evs ++ [.process])) c m := by
+  have ir := invR_run h cfg evs (distinctRequests_fresh h cfg evs hd)
+  have hreg : (run h cfg evs).table (h m.tok) = some c := by rw [hm]; exact ir.reg c cl hc hp hs
+  have e : run h cfg (evs ++ [.process]) = step h cfg (run h cfg evs) .process := by simp [run, List.foldl_append]
+  rw [e, step, hq]
+  dsimp only
+  rw [hnd]
+  simp only [Bool.false_eq_true, if_false]
+  rw [remember_holds]
+  exact deliver_reaches h cfg _ m c cl hreg hc hs
+
+/-- **an outstanding request is registered** (the converse of "table entries belong to callers"), for every history of
+    requests with distinct tokens; and once answered or returned it is not (where delivery consumes the entry). -/
+theorem outstanding_iff_registered (h : Token → Nat) (cfg : Cfg) (evs : List Event) (hd : DistinctRequests h evs)
+    (c : Nat) (cl : Caller) (hc : (run h cfg evs).callers c = some cl) :
+    (cl.pc ≠ .returned → cl.slot = none → (run h cfg evs).table (h cl.tok) = some c) ∧
+    (deliverDeletes cfg = true → (cl.slot ≠ none ∨ cl.pc = .returned) → (run h cfg evs).table (h cl.tok) = none) := by
+  have ir := invR_run h cfg evs (distinctRequests_fresh h cfg evs hd)
+  exact ⟨ir.reg c cl hc, fun hdd hor => ir.gone hdd c cl hc hor⟩
+
+/-- **held_was_sent_by_the_peer ("the content the peer produced").**  For every schedule: whatever a caller holds — in
+    its channel or as the returned response — is, field by field (kind, token, message ID, content), a message that
+    arrived from the peer in this history; with `resp_token_matches` its token is the caller's own. -/
+theorem held_was_sent_by_the_peer (h : Token → Nat) (cfg : Cfg) (evs : List Event) (c : Nat) (m : Msg)
+    (hh : Holds (run h cfg evs) c m) : Event.arrive m.kind m.tok m.mid m.tag ∈ evs :=
+  (invMsg_run h cfg evs).hd c m hh
+
+/-- **late_copy_goes_to_default (duplicates and late responses, trace level).**  For every schedule of requests with
+    distinct tokens, on a connection whose delivery consumes the registration (datagram; stream without block-wise): once
+    caller `c` has been answered or has returned, the next message carrying its token reaches no caller — the callers
+    are untouched and the message is on the default path. -/
+theorem late_copy_goes_to_default (h : Token → Nat) (cfg : Cfg) (evs : List Event) (hd : DistinctRequests h evs)
+    (hdd : deliverDeletes cfg = true) (c : Nat) (cl : Caller) (hc : (run h cfg evs).callers c = some cl)
+    (hdone : cl.slot ≠ none ∨ cl.pc = .returned)
+    (m : Msg) (q : List Msg) (hq : (run h cfg evs).queue = m :: q) (hm : m.tok = cl.tok)
+    (hnd : dedupHit cfg { run h cfg evs with queue := q } m = false) :
+    (run h cfg (evs ++ [.process])).callers = (run h cfg evs).callers ∧
+    (run h cfg (evs ++ [.process])).dflt = (run h cfg evs).dflt ++ [m] := by
+  have ir := invR_run h cfg evs (distinctRequests_fresh h cfg evs hd)
+  have hgone : (run h cfg evs).table (h m.tok) = none := by rw [hm]; exact ir.gone hdd c cl hc hdone
+  have e : run h cfg (evs ++ [.process]) = step h cfg (run h cfg evs) .process := by simp [run, List.foldl_append]
+  rw [e, step, hq]
+  dsimp only
+  rw [hnd]
+  simp only [Bool.false_eq_true, if_false]
+  have hmiss : ({ run h cfg evs with queue := q } : State).table (h m.tok) = none := hgone
+  rw [deliver_miss_default_eq h cfg _ m hmiss]
+  unfold remember
+  split <;> exact ⟨rfl, rfl⟩
+
+/-! ### Single-step facts (valid in *every* state, hence in every reachable one; the trace-level theorems above and
+    the invariants are built from them) -/
+
 /-- **second_do_rejected.** In every state, a request whose token hashes like a registered one is refused
     (`exists`, or `badToken` from the block-wise layer), and nothing else changes: the table — in particular the first
     caller's entry —, every other caller, the queue and the default-path log stay exactly as they were. -/
@@ -93,6 +185,29 @@ theorem second_do_rejected (h : Token → Nat) (cfg : Cfg) (s : State) (c c0 : N
     · rw [if_neg h2] at hs'
       have h3 : (s.table (h tok)).isSome = true := by rw [hreg]; rfl
       rw [if_pos h3] at hs'; exact frame _ (Or.inl rfl) hs'
+
+/-- **duplicate_token_rejected_first_kept (trace level).**  For every schedule of requests with distinct tokens: while
+    caller `c0` is outstanding and unanswered, a further request with *its* token is refused (`exists`, or `badToken`
+    from the block-wise layer) and `c0` stays exactly as it was, still registered — so by `response_reaches_request`'s
+    argument its response still reaches it. -/
+theorem duplicate_token_rejected_first_kept (h : Token → Nat) (cfg : Cfg) (evs : List Event) (hd : DistinctRequests h evs)
+    (c0 : Nat) (cl0 : Caller) (hc0 : (run h cfg evs).callers c0 = some cl0) (hp : cl0.pc ≠ .returned) (hs : cl0.slot = none)
+    (c : Nat) (hnew : (run h cfg evs).callers c = none) (con : Bool) (mid : Nat) :
+    let s' := run h cfg (evs ++ [.doStart c cl0.tok con mid])
+    (∃ r, s'.callers c = some ⟨cl0.tok, mid, .returned, none, some r⟩ ∧ (r = .exists_ ∨ r = .badToken)) ∧
+    s'.callers c0 = some cl0 ∧ s'.table (h cl0.tok) = some c0 ∧
+    (∀ m : Msg, m.tok = cl0.tok → Holds (deliver h cfg s' m) c0 m) := by
+  intro s'
+  have ir := invR_run h cfg evs (distinctRequests_fresh h cfg evs hd)
+  have hreg := ir.reg c0 cl0 hc0 hp hs
+  have e : s' = step h cfg (run h cfg evs) (.doStart c cl0.tok con mid) := by simp [s', run, List.foldl_append]
+  obtain ⟨t1, _, _, _, _, t6, t7⟩ := second_do_rejected h cfg (run h cfg evs) c c0 cl0.tok con mid hnew hreg
+  have hne : c0 ≠ c := by intro x; subst x; rw [hnew] at hc0; cases hc0
+  have hc0' : s'.callers c0 = some cl0 := by rw [e, t6 c0 hne]; exact hc0
+  have ht' : s'.table (h cl0.tok) = some c0 := by rw [e, t1]; exact hreg
+  refine ⟨by rw [e]; exact t7, hc0', ht', ?_⟩
+  intro m hm
+  exact deliver_reaches h cfg s' m c0 cl0 (by rw [hm]; exact ht') hc0' hs
 
 /-- **dup_resp_harmless (1): the first match consumes the registration** (datagram transport, and stream transport
     without block-wise): after a message has been delivered, no caller is registered under its token's hash. -/
@@ -203,6 +318,11 @@ def demo : List Event := [
   .arrive .con [0xbb] 40002 "x2", .process, .ret 2, .arrive .con [0xbb] 40002 "x2", .process,
   .arrive .pig [0xaa] 1 "x1", .process, .ret 1, .arrive .non [0xaa] 40003 "x1", .process]
 
+example : DistinctRequests crc64 demo := by
+  refine ⟨by decide, ?_⟩
+  intro a ha b hb hab
+  simp only [demo, doTokens, List.mem_cons, List.mem_nil_iff, or_false] at ha hb
+  rcases ha with rfl | rfl | rfl <;> rcases hb with rfl | rfl | rfl <;> first | rfl | (exfalso; revert hab; decide +kernel)
 example : ((run crc64 ⟨true, false⟩ demo).callers 1).bind (·.res) = some (.ok ⟨.pig, [0xaa], 1, "x1", 4⟩) := by decide +kernel
 example : ((run crc64 ⟨true, false⟩ demo).callers 2).bind (·.res) = some (.ok ⟨.con, [0xbb], 40002, "x2", 2⟩) := by decide +kernel
 example : (run crc64 ⟨true, false⟩ demo).dflt.map (·.tag) = ["x1"] := by decide
@@ -218,6 +338,13 @@ open CoapVerif.Props.C03
 #print axioms resp_token_matches
 #print axioms at_most_one_receiver
 #print axioms no_cross_delivery
+#print axioms distinctRequests_fresh
+#print axioms response_reaches_request
+#print axioms outstanding_iff_registered
+#print axioms held_was_sent_by_the_peer
+#print axioms late_copy_goes_to_default
+#print axioms duplicate_token_rejected_first_kept
+#print axioms deliver_miss_default_eq
 #print axioms second_do_rejected
 #print axioms deliver_consumes
 #print axioms deliver_miss_default
